@@ -2192,6 +2192,34 @@ def _verify_attribute_values(ir):
     return errors
 
 
+def _verify_enumerator_names_are_unique(enum, source_file_name, errors):
+    """Verifies that no two values of an enum get the same C++ enumerator name."""
+    # The conversion to kCamelCase drops underscores, so distinct Emboss names
+    # (`ADC_1`, `ADC1`) can become the same C++ name.
+    first_use = {}
+    for value in enum.value:
+        for name in _get_enum_value_names(value):
+            other = first_use.setdefault(name, value)
+            if other is not value:
+                errors.append(
+                    [
+                        error.error(
+                            source_file_name,
+                            value.name.source_location,
+                            "C++ enumerator name '{}' for '{}' is already used "
+                            "for '{}'.".format(
+                                name, value.name.name.text, other.name.name.text
+                            ),
+                        ),
+                        error.note(
+                            source_file_name,
+                            other.name.source_location,
+                            "'{}' defined here.".format(other.name.name.text),
+                        ),
+                    ]
+                )
+
+
 def _propagate_defaults_and_verify_attributes(ir):
     """Verify attributes and ensure defaults are set when not overridden.
 
@@ -2224,7 +2252,14 @@ def _propagate_defaults_and_verify_attributes(ir):
         add_fn=_add_missing_enum_case_attribute_on_enum_value,
     )
 
-    return []
+    errors = []
+    traverse_ir.fast_traverse_ir_top_down(
+        ir,
+        [ir_data.Enum],
+        _verify_enumerator_names_are_unique,
+        parameters={"errors": errors},
+    )
+    return errors
 
 
 def generate_header(ir, config=Config()):
